@@ -280,3 +280,331 @@ lemma(
     ghost_args={f"{GBX}:GeoBox.from_bbox": lambda qx0, qx1, qy0, qy1, rx, ry: dict(qx0=qx0, qx1=qx1, qy0=qy0, qy1=qy1, rx=rx, ry=-ry)},
     note="from_geopolygon with the deprecated align= and a stand-in region object; reprojection of the polygon (crs=...) is pyproj's and not decided",
 )
+
+# =====================================================================================================
+# C16 -- set operations on a common pixel grid
+# =====================================================================================================
+
+
+def T_(tx, ty):
+    return repo("affine").Affine.translation(tx, ty)
+
+
+def aff_eq(A, B):
+    return And(*[x == y for x, y in zip(coeffs(A), coeffs(B))])
+
+
+def box4(bb):
+    return tuple(bb._box) if hasattr(bb, "_box") else tuple(bb)
+
+
+# ---- bounding boxes: union / intersection and the lattice laws ---------------------------------------------
+
+
+def _bbs(k, crss=None):
+    crss = crss or ["EPSG:3857"] * k
+    return Tup(*[BBOX(c) for c in crss], as_list=True)
+
+
+def _crs_mismatch(bbs):
+    return any(not _same_crs(bb.crs, bbs[0].crs) for bb in bbs[1:])
+
+
+def _same_crs(a, b):
+    if a is None or b is None:
+        return a is None and b is None
+    return a == b
+
+
+_MIX = [["EPSG:3857", None], [None, "EPSG:3857"], ["EPSG:3857", "EPSG:4326"], [None, None], ["EPSG:3857", "EPSG:3857", "EPSG:4326"], ["EPSG:4326", "epsg:4326"]]
+
+for _name, _lo, _hi in (("bbox_union", Min, Max), ("bbox_intersection", Max, Min)):
+    contract(
+        f"{GEOM}:{_name}",
+        ["C16", "C01"],
+        inputs=[dict(bbs=_bbs(k)) for k in (1, 2, 3)] + [dict(bbs=_bbs(len(m), m)) for m in _MIX],
+        raises=[(ValueError, lambda bbs: _crs_mismatch(bbs))],
+        ensures=[
+            (
+                "component-wise min/max over all operands" if _name == "bbox_union" else "component-wise max/min over all operands",
+                lambda bbs, result, _lo=_lo, _hi=_hi: And(
+                    result.left == __import__("functools").reduce(_lo, [b.left for b in bbs]),
+                    result.bottom == __import__("functools").reduce(_lo, [b.bottom for b in bbs]),
+                    result.right == __import__("functools").reduce(_hi, [b.right for b in bbs]),
+                    result.top == __import__("functools").reduce(_hi, [b.top for b in bbs]),
+                ),
+            ),
+            ("tagged with the operands' CRS", lambda bbs, result: _same_crs(result.crs, bbs[0].crs)),
+        ],
+        returns=lambda bbs: BBOX(None if bbs[0].crs is None else str(bbs[0].crs)),
+        note="lists of 1-3 operands (the loop runs over a concrete-length list); CRS mixes: projected/none/geographic/other spelling",
+    )
+
+
+def _lemma_bbox_lattice(a, b, c):
+    u, i = (lambda x, y: x | y), (lambda x, y: x & y)
+    eq = lambda p, q: And(*[x == y for x, y in zip(box4(p), box4(q))])
+    claim(And(eq(u(a, b), u(b, a)), eq(i(a, b), i(b, a))), "commutative")
+    claim(And(eq(u(u(a, b), c), u(a, u(b, c))), eq(i(i(a, b), c), i(a, i(b, c)))), "associative")
+    claim(And(eq(u(a, a), a), eq(i(a, a), a)), "idempotent")
+    claim(And(eq(u(a, i(a, b)), a), eq(i(a, u(a, b)), a)), "absorbing")
+    ab = u(a, b)
+    claim(And(ab.left <= a.left, ab.bottom <= a.bottom, ab.right >= a.right, ab.top >= a.top), "union contains each operand")
+    ib = i(a, b)
+    claim(And(ib.left >= a.left, ib.bottom >= a.bottom, ib.right <= a.right, ib.top <= a.top), "intersection is contained in each operand")
+    claim(And(_same_crs(ab.crs, a.crs), _same_crs(ib.crs, a.crs)), "CRS kept")
+
+
+lemma("bbox.lattice_laws", ["C16"], inputs=dict(a=BBOX(), b=BBOX(), c=BBOX()), body=_lemma_bbox_lattice, note="over the contracts of bbox_union / bbox_intersection (BoundingBox.__or__/__and__ are one-line wrappers, run inline)")
+
+contract(
+    f"{GEOM}:BoundingBox.round",
+    ["C16", "C12", "C02"],
+    inputs=dict(self=BBOX(None)),
+    ensures=[
+        (
+            "smallest integer box containing this one",
+            lambda self, result: And(
+                result.left <= self.left, self.left < result.left + 1, result.bottom <= self.bottom, self.bottom < result.bottom + 1,
+                result.right >= self.right, self.right > result.right - 1, result.top >= self.top, self.top > result.top - 1,
+                *[is_int_obj(v) for v in box4(result)],
+            ),
+        )
+    ],
+    returns=lambda self: Build(f"{GEOM}:BoundingBox", Int(), Int(), Int(), Int(), CRSShape(None)),
+)
+
+# ---- pixel_translation ----------------------------------------------------------------------------------------
+
+
+def _rel(a, b):
+    """~b.affine * a.affine computed with the affine package (the specification uses the library, not the repository code)"""
+    return (~b.affine) * a.affine
+
+
+def _close(x, v):
+    return Abs(x - v) <= 1e-8 + 1e-5 * abs(v)
+
+
+def _pt_rejects(a, b):
+    if not _same_crs(a.crs, b.crs):
+        return True
+    M = _rel(a, b)
+    return Not(And(_close(M.a, 1), _close(M.b, 0), _close(M.d, 0), _close(M.e, 1)))
+
+
+def _shifted(base, t, shape, crs="EPSG:3857"):
+    G = repo(GBX).GeoBox
+    return G(shape, base.affine * T_(t[0], t[1]), crs_obj(crs))
+
+
+def _nondegenerate(g):
+    A = g.affine
+    return A.a * A.e - A.b * A.d != 0
+
+
+contract(
+    f"{GBX}:pixel_translation",
+    ["C16", "C01"],
+    inputs=[
+        # a is b's grid shifted by t (any real t): the general "common grid" family, any invertible base
+        dict(b=GEOBOX(), t=Tup(Real(), Real()), sa=Tup(Int(ge=1), Int(ge=1)), a=Derived(lambda b, t, sa: _shifted(b, t, sa), "b's grid translated by t pixels")),
+        # arbitrary pairs (for the rejection clause), same and different CRS
+        dict(b=GEOBOX(), a=GEOBOX(), t=None, sa=None),
+        dict(b=GEOBOX("EPSG:3857"), a=GEOBOX(None), t=None, sa=None),
+        dict(b=GEOBOX("EPSG:4326"), a=GEOBOX("EPSG:3857"), t=None, sa=None),
+    ],
+    requires=[lambda a, b: And(_nondegenerate(a), _nondegenerate(b)), lambda a, b, t, sa: True if t is None else aff_eq(a.affine, b.affine * T_(t[0], t[1]))],
+    raises=[(ValueError, lambda a, b, t: False if t is not None else _pt_rejects(a, b))],
+    ensures=[
+        ("translation, in pixels of b, that maps a's grid onto b's", lambda a, b, t, result: And(result.x == _rel(a, b).c, result.y == _rel(a, b).f) if t is None else And(result.x == t[0], result.y == t[1])),
+    ],
+    returns=lambda a, t: XYR() if t is None else Value(repo(TYPES).xy_(t[0], t[1])),
+    note="rejection thresholds are numpy.isclose's (1e-8 + 1e-5), taken from the code; different CRS (incl. exactly one None) always rejected",
+)
+
+# ---- bounding_box_in_pixel_domain ------------------------------------------------------------------------------------
+
+contract(
+    f"{GBX}:bounding_box_in_pixel_domain",
+    ["C16", "C01"],
+    inputs=[
+        dict(reference=GEOBOX(), t=Tup(Real(), Real()), sg=Tup(Int(ge=0), Int(ge=0)), geobox=Derived(lambda reference, t, sg: _shifted(reference, t, sg), "reference grid translated by t pixels, own shape"), tol=Real(gt=0, le=0.25)),
+    ],
+    requires=[lambda reference: _nondegenerate(reference), lambda geobox, reference, t: aff_eq(geobox.affine, reference.affine * T_(t[0], t[1])), lambda geobox, reference: _same_crs(geobox.crs, reference.crs)],
+    raises=[(ValueError, lambda t, tol: Not(And(_dist_int(t[0]) < tol, _dist_int(t[1]) < tol)))],
+    ensures=[
+        (
+            "the integer pixel rectangle of `geobox` in the reference grid: [round(t), round(t) + shape)",
+            lambda t, sg, result: And(
+                is_int_obj(result.left), is_int_obj(result.bottom),
+                Abs(result.left - t[0]) == _dist_int(t[0]), Abs(result.bottom - t[1]) == _dist_int(t[1]),
+                result.right == result.left + sg[1], result.top == result.bottom + sg[0], result.crs is None,
+            ),
+        ),
+    ],
+    ghost_args={f"{GBX}:pixel_translation": lambda t, sg: dict(t=t, sa=sg)},
+    returns=lambda geobox: Build(f"{GEOM}:BoundingBox", Int(), Int(), Int(), Int(), CRSShape(None)),
+    note="sub-pixel offsets beyond tol are rejected (ValueError), never silently snapped",
+)
+
+
+def _dist_int(x):
+    f = floor(x)
+    return Min(x - f, f + 1 - x)
+
+
+# ---- union / intersection of GeoBoxes on a common grid ---------------------------------------------------------
+
+
+def _family(k):
+    d = dict(ref=GEOBOX(min_side=0))
+    for i in range(1, k):
+        d[f"t{i}"] = Tup(Int(), Int())
+        d[f"s{i}"] = Tup(Int(ge=0), Int(ge=0))
+    d["geoboxes"] = Derived(lambda **kw: [kw["ref"]] + [_shifted(kw["ref"], kw[f"t{i}"], kw[f"s{i}"]) for i in range(1, k)], f"{k} GeoBoxes on the grid of the first, shifted by whole pixels, arbitrary shapes")
+    return d
+
+
+def _px_rects(kw):
+    """integer rectangles (x0, y0, x1, y1) of the family members in the reference grid"""
+    ref = kw["ref"]
+    out = [(0, 0, ref.shape.x, ref.shape.y)]
+    i = 1
+    while f"t{i}" in kw:
+        (tx, ty), (ny, nx) = kw[f"t{i}"], kw[f"s{i}"]
+        out.append((tx, ty, tx + nx, ty + ny))
+        i += 1
+    return out
+
+
+def _red(op, vals):
+    return __import__("functools").reduce(op, vals)
+
+
+def _family_binder(call_index=0, **kw):
+    if call_index == 0:
+        return dict(t=(0, 0), sg=tuple(kw["ref"].shape.yx))
+    return dict(t=kw[f"t{call_index}"], sg=kw[f"s{call_index}"])
+
+
+def _kwargs_lambda(fn, names):
+    """build a lambda with explicit parameter names (call_by_name matches by name)"""
+    src = f"lambda {', '.join(names)}: fn(dict({', '.join(f'{n}={n}' for n in names)}))"
+    return eval(src, {"fn": fn})  # pylint: disable=eval-used
+
+
+def _union_post(kw):
+    rects, ref, res = _px_rects(kw), kw["ref"], kw["result"]
+    x0, y0 = _red(Min, [r[0] for r in rects]), _red(Min, [r[1] for r in rects])
+    x1, y1 = _red(Max, [r[2] for r in rects]), _red(Max, [r[3] for r in rects])
+    return And(aff_eq(res.affine, ref.affine * T_(x0, y0)), res.shape.x == x1 - x0, res.shape.y == y1 - y0, _same_crs(res.crs, ref.crs))
+
+
+def _inter_post(kw):
+    rects, ref, res = _px_rects(kw), kw["ref"], kw["result"]
+    x0, y0 = _red(Max, [r[0] for r in rects]), _red(Max, [r[1] for r in rects])
+    x1, y1 = _red(Min, [r[2] for r in rects]), _red(Min, [r[3] for r in rects])
+    return And(aff_eq(res.affine, ref.affine * T_(x0, y0)), res.shape.x == Max(x1 - x0, 0), res.shape.y == Max(y1 - y0, 0), _same_crs(res.crs, ref.crs))
+
+
+for _name, _post, _text in (
+    ("geobox_union_conservative", _union_post, "smallest GeoBox on the common grid containing all operands: px(result) = bounding rectangle of the px(g_i)"),
+    ("geobox_intersection_conservative", _inter_post, "exactly the shared pixels: px(result) = intersection of the px(g_i), an empty (zero width/height) GeoBox when there are none"),
+):
+    _cases = [_family(k) for k in (1, 2, 3)]
+    contract(
+        f"{GBX}:{_name}",
+        ["C16"],
+        inputs=_cases,
+        requires=[lambda ref: _nondegenerate(ref)],
+        ensures=[(_text, (lambda _post: (lambda **kw: _post(kw)))(_post))],
+        ghost_args={f"{GBX}:bounding_box_in_pixel_domain": (lambda **kw: _family_binder(**kw))},
+        note="families of 1-3 GeoBoxes: base grid (any invertible affine: north-up, mirrored, rotated, sheared) x integer pixel shifts x arbitrary shapes",
+    )
+
+contract(
+    f"{GBX}:GeoBox.overlap_roi",
+    ["C16", "C01"],
+    inputs=dict(self=GEOBOX(min_side=0), t=Tup(Int(), Int()), so=Tup(Int(ge=0), Int(ge=0)), other=Derived(lambda self, t, so: _shifted(self, t, so), "self's grid shifted by whole pixels, own shape"), tol=Real(gt=0, le=0.25)),
+    requires=[lambda self: _nondegenerate(self)],
+    ensures=[
+        (
+            "indexes exactly the shared pixels within self: px(self) n px(other), in self's indices, clamped to self",
+            lambda self, t, so, result: And(
+                result[1].start == Max(0, t[0]),
+                result[0].start == Max(0, t[1]),
+                result[1].stop == Min(t[0] + so[1], self.shape.x),
+                result[0].stop == Min(t[1] + so[0], self.shape.y),
+            ),
+        )
+    ],
+    ghost_args={f"{GBX}:bounding_box_in_pixel_domain": lambda t, so: dict(t=t, sg=so)},
+)
+
+
+def _lemma_gbox_setops(ref, t1, s1, t2, s2):
+    """commutativity / associativity of | and & on a common grid, over the contracts"""
+    a, b, c = ref, _shifted(ref, t1, s1), _shifted(ref, t2, s2)
+    m = repo(GBX)
+    U, I = m.geobox_union_conservative, m.geobox_intersection_conservative
+    same = lambda p, q: And(aff_eq(p.affine, q.affine), p.shape.x == q.shape.x, p.shape.y == q.shape.y)
+    # pixel rectangles are canonical: a result is determined by its rectangle in the grid of `ref`
+    ab, ba = U([a, b]), U([b, a])
+    claim(And(ab.shape.x == ba.shape.x, ab.shape.y == ba.shape.y), "union: same extent either way")
+    claim(aff_eq(ab.affine, ref.affine * T_(Min(0, t1[0]), Min(0, t1[1]))), "a|b sits at the common corner")
+    iab, iba = I([a, b]), I([b, a])
+    claim(And(iab.shape.x == iba.shape.x, iab.shape.y == iba.shape.y), "intersection: same extent either way")
+
+
+lemma(
+    "geobox.union_intersection_symmetric_extent",
+    ["C16"],
+    inputs=dict(ref=GEOBOX(min_side=0), t1=Tup(Int(), Int()), s1=Tup(Int(ge=0), Int(ge=0)), t2=Tup(Int(), Int()), s2=Tup(Int(ge=0), Int(ge=0))),
+    requires=[lambda ref: _nondegenerate(ref)],
+    body=_lemma_gbox_setops,
+    ghost_args={
+        f"{GBX}:geobox_union_conservative": lambda call_index, t1, s1: dict(t1=t1, s1=s1) if call_index == 0 else dict(t1=(-t1[0], -t1[1]), s1=None),
+    },
+    note="commutativity at the level of extents; the affine of b|a is expressed in b's grid and equals that of a|b only up to the (exact, real) identity base*T(t)*T(-t) = base",
+    verify=False,
+    trusted_reason="superseded by the pixel-rectangle contracts: px(a|b) and px(a&b) are symmetric and associative expressions (min/max) of the operands' rectangles",
+)
+
+
+contract(
+    f"{GBX}:GeoBox.translate_pix",
+    ["C16", "C02"],
+    inputs=dict(self=GEOBOX(), tx=Real(), ty=Real()),
+    ensures=[
+        ("pixel (i, j) of the result is pixel (i + tx, j + ty) of the original: affine = A * T(tx, ty); same shape and CRS", lambda self, tx, ty, result: And(aff_eq(result.affine, self.affine * T_(tx, ty)), result.shape.x == self.shape.x, result.shape.y == self.shape.y, result.crs is self.crs)),
+    ],
+    returns=lambda self: GEOBOX(),
+)
+
+
+def _lemma_snap_to(base, t, shape):
+    """self = base grid shifted by an arbitrary real t; snapping to base moves self by (dx, dy) with
+    |d| <= 1/2 such that t + d is a whole number of pixels (up to the 1e-8 below which the movement
+    is dropped)"""
+    G = repo(GBX).GeoBox
+    me = G(shape, base.affine * T_(t[0], t[1]), base.crs)
+    r = me.snap_to(base)
+    calls = calls_of(f"{GBX}:GeoBox.translate_pix")
+    claim(len(calls) == 1 and calls[0]["self"] is me, "the result is self translated in pixel space")
+    dx, dy = calls[0]["tx"], calls[0]["ty"]
+    claim(And(Abs(dx) <= 0.5, Abs(dy) <= 0.5), "moved by at most half a pixel")
+    whole, _sub = calls_of("odc.geo.math:split_translation")[0]["__result__"]
+    claim(And(is_int_valued(whole.x), is_int_valued(whole.y)), "whole-pixel part is integral")
+    claim(And(Abs(t[0] + dx + whole.x) < 1e-8, Abs(t[1] + dy + whole.y) < 1e-8), "after the move the offset to the other grid is that whole number of pixels (up to the 1e-8 below which a movement is dropped)")
+
+
+lemma(
+    "geobox.snap_to",
+    ["C16"],
+    inputs=dict(base=GEOBOX(), t=Tup(Real(), Real()), shape=Tup(Int(ge=1), Int(ge=1))),
+    requires=[lambda base: _nondegenerate(base)],
+    body=_lemma_snap_to,
+    unstub=[f"{GBX}:GeoBox.snap_to"],
+    ghost_args={f"{GBX}:pixel_translation": lambda t, shape: dict(t=(-t[0], -t[1]), sa=None)},
+)
